@@ -19,11 +19,13 @@ Hypothesis nsf : no_self_feed p.
 
 (* ---------------------------------------------------------------- C02: idle *)
 (* the last run of effect e is consistent with the present: its log shows current values, the
-   memos it tracked are Clean (hence consistent all the way down), nothing is pending *)
+   memos it tracked are Clean (hence consistent all the way down), nothing is pending; sources
+   disposed since that run are exempt ([Lcur], [Lclean]: disposal is not a change) *)
 Definition EffectConverged (s : state) (e : nat) : Prop :=
   hasrun p s e = true /\ edirty (getn s e) = false /\ eflag (getn s e) = false /\
   Lcur p s e /\ Lclean p s e /\
-  (forall x v, In (x, v, true) (rlog (getn s e)) -> memob p x = true -> ConsistentM p s x).
+  (forall x v, In (x, v, true) (rlog (getn s e)) -> memob p x = true -> dead p s x = false ->
+               ConsistentM p s x).
 
 Lemma idle_effect_converged s e :
   Inv0 p s -> ready s = [] -> effb p e = true ->
@@ -48,7 +50,7 @@ Proof.
   assert (Hcl : Lclean p s e).
   { apply R4. unfold needs_clean, needs_clean_n. rewrite Hde. auto 10. }
   split; [unfold hasrun; rewrite Hde; exact Hh|]. split; auto. split; auto. split; auto. split; auto.
-  intros x v Hx Hmx. apply clean_consistent; auto. eapply Hcl; eauto.
+  intros x v Hx Hmx Hgx. apply clean_consistent; auto. eapply Hcl; eauto.
 Qed.
 
 Theorem idle_converged : forall ops e,
